@@ -57,6 +57,10 @@ type VerifColStore struct {
 
 var verifCSOnce sync.Once
 
+// VerifCSSegmentRows is the number of rows per segment the stores opened next are configured
+// with (the column-store default is util.DefaultMaxRowsPerSegment4ColStore).
+var VerifCSSegmentRows = 64
+
 // VerifOpenColStore opens (start-up pass included) the column-store table store of the shard
 // directory shardDir (its files live in shardDir/columnstore, its compact logs in
 // shardDir/compact_log).
@@ -91,9 +95,11 @@ func VerifOpenColStore(shardDir string) (*VerifColStore, error) {
 	}
 	pk = mst.PrimaryKey()
 	conf := NewColumnStoreConfig()
-	conf.maxRowsPerSegment = 64
+	conf.maxRowsPerSegment = VerifCSSegmentRows
 	conf.FragmentsNumPerFlush = 1
-	s := &VerifColStore{conf: conf, tier: uint64(util.Hot), pkSchema: pk}
+	// a non-empty lock path, as a real shard has: with an empty one the store counts as being
+	// pre-loaded and the loader leaves temporary files alone
+	s := &VerifColStore{conf: conf, tier: uint64(util.Hot), pkSchema: pk, lock: filepath.Join(shardDir, "LOCK")}
 	dir := filepath.Join(shardDir, ColumnStoreDirName)
 	if err := fileops.MkdirAll(dir, 0750); err != nil {
 		return nil, err
@@ -212,3 +218,27 @@ func (s *VerifColStore) Rows() (rows []VerifCSRow, files []string, err error) {
 
 // Close closes the store.
 func (s *VerifColStore) Close() error { return s.m.Close() }
+
+// VerifCSDebug describes the chunk metas of every file (debugging aid).
+func VerifCSDebug(s *VerifColStore) string {
+	out := ""
+	fs := s.m.CSFiles[verifCSMst]
+	if fs == nil {
+		return "no files"
+	}
+	for _, f := range fs.files {
+		n := int(f.MetaIndexItemNum())
+		out += fmt.Sprintf("%s blocks=%d", filepath.Base(f.Path()), n)
+		for i := 0; i < n; i++ {
+			mi, _ := f.MetaIndexAt(i)
+			cms, e := f.ReadChunkMetaData(i, mi, nil, fileops.IO_PRIORITY_LOW_READ)
+			out += fmt.Sprintf(" [block %d count=%d cms=%d err=%v", i, mi.count, len(cms), e)
+			for j := range cms {
+				out += fmt.Sprintf(" sid=%d segs=%d cols=%d", cms[j].sid, cms[j].segCount, len(cms[j].colMeta))
+			}
+			out += "]"
+		}
+		out += "\n"
+	}
+	return out
+}
